@@ -60,19 +60,19 @@ add(
 )
 add(
     "C08",
-    PBT + "an integer-microsecond statement of the hull rule and its left fold",
+    PBT + "an integer-microsecond statement of the hull rule and its left fold; plus exhaustive enumeration of a small scope (all lists of <= 3 events on a tiny grid x all pulsetimes)",
     "Pairs/lists in any order with overlaps, ties, zero/negative durations and pulsetimes constructed to sit exactly on the boundary; iff-direction of mergeability, result shape, fold equality, normal form, idempotence, coverage.",
     "Pulsetime is an integer number of microseconds; ms-grid timestamps.",
 )
 add(
     "C09",
-    PBT + "brute-force O(n*m) interval set arithmetic on an integer ms grid (multiset equality, both directions)",
+    PBT + "brute-force O(n*m) interval set arithmetic on an integer ms grid (multiset equality, both directions); plus exhaustive enumeration of every pair of small lists on a tiny grid",
     "Touching/zero-length/identical/nested/one-spanning-many layouts, shuffled; intersection pieces as a multiset incl. id and data, non-modification of inputs; union as the unique list of maximal closed intervals.",
     "ms grid; closed-interval semantics for union; union may modify inputs.",
 )
 add(
     "C10",
-    PBT + "an integer covered-set oracle (input plus exactly the gaps 0<g<=P)",
+    PBT + "an integer covered-set oracle (input plus exactly the gaps 0<g<=P); plus exhaustive enumeration of every small layout x labelling x pulsetime on a tiny grid",
     "Chains of gaps below/at/above the pulsetime with equal/differing neighbours and zero-length events; exact covered set, no overlap, positive lengths, per-label coverage, input unmodified.",
     "Inputs satisfy the property's precondition (non-overlapping, distinct timestamps).",
 )
@@ -90,7 +90,7 @@ add(
 )
 add(
     "C15",
-    PBT + "an integer interval-subtraction oracle (list one unchanged + uncovered parts of list two as multisets)",
+    PBT + "an integer interval-subtraction oracle (list one unchanged + uncovered parts of list two as multisets); plus exhaustive enumeration of every pair of small lists on a tiny grid",
     "Sorted non-overlapping lists with containment both ways, spanning, shared edges, zero-length events; both directions, no overlap, inputs unmodified.",
     "Pieces are compared after cutting at list-one edges (a zero-length list-one event may split a piece); zero-length list-two pieces ignored.",
 )
